@@ -2357,6 +2357,10 @@ func ruleElemAlways(p *Prog, r *Report, names []string) {
 					wBlk[b] = true
 				}
 			}
+			// a local closure or an unexported helper that writes on every one of its paths
+			if g := staticCallee(c.Common()); g != nil && g != fn && p.InModule(g) && !p.Exported(g) && p.alwaysWrites(g, fn, 0) {
+				wBlk[b] = true
+			}
 		})
 		cz := p.canonFor(fn)
 		// loops over a slice known to be non-empty run their body
@@ -2604,7 +2608,12 @@ func ruleDecoderConfig(p *Prog, r *Report) {
 						gs = append(gs, fmt.Sprintf("%s=%v", gl.Name(), ng.Pol))
 					} else if bo, ok := ng.Cond.(*ssa.BinOp); ok {
 						if gl := globalOf(bo.X); gl != nil {
-							gs = append(gs, fmt.Sprintf("%s%s%s=%v", gl.Name(), bo.Op, cz.of(bo.Y), ng.Pol))
+							// x != y under pol  ==  x == y under !pol
+							op, pol := bo.Op, ng.Pol
+							if op == token.NEQ {
+								op, pol = token.EQL, !pol
+							}
+							gs = append(gs, fmt.Sprintf("%s%s%s=%v", gl.Name(), op, cz.of(bo.Y), pol))
 						}
 					}
 				}
@@ -2861,4 +2870,58 @@ func ruleJsonScanClosing(p *Prog, r *Report, name string) {
 	} else {
 		r.Bad(rule, name, "a closing brace reaches the brace count", bad, "a '}' can be sent back to the read loop (from "+bad+") before the scanner has counted it: a closing brace outside a document is skipped instead of reported")
 	}
+}
+
+// alwaysWrites: every path from the entry of h to a return passes a call that has an output sink (buffer / builder — a
+// parameter, a captured variable or anything of that type) among its arguments, a call of enc, or a call of a function for which
+// the same holds.
+func (p *Prog) alwaysWrites(h *ssa.Function, enc *ssa.Function, depth int) bool {
+	if len(h.Blocks) == 0 || depth > 2 {
+		return false
+	}
+	wBlk := map[*ssa.BasicBlock]bool{}
+	eachInstr(h, func(b *ssa.BasicBlock, in ssa.Instruction) {
+		c, ok := in.(ssa.CallInstruction)
+		if !ok {
+			return
+		}
+		if g := staticCallee(c.Common()); g != nil {
+			if g == enc || (g != h && p.InModule(g) && !p.Exported(g) && p.alwaysWrites(g, enc, depth+1)) {
+				wBlk[b] = true
+			}
+		}
+		for _, a := range c.Common().Args {
+			v := a
+			if mi, ok := a.(*ssa.MakeInterface); ok {
+				v = mi.X
+			}
+			if isOutputSinkType(v.Type()) {
+				if g := staticCallee(c.Common()); g == nil || !p.InModule(g) {
+					wBlk[b] = true // a library call on the sink: a write
+				}
+			}
+		}
+	})
+	if len(wBlk) == 0 {
+		return false
+	}
+	seen := map[*ssa.BasicBlock]bool{h.Blocks[0]: true}
+	work := []*ssa.BasicBlock{h.Blocks[0]}
+	for len(work) > 0 {
+		b := work[len(work)-1]
+		work = work[:len(work)-1]
+		if wBlk[b] {
+			continue
+		}
+		if _, ok := b.Instrs[len(b.Instrs)-1].(*ssa.Return); ok {
+			return false
+		}
+		for _, sc := range b.Succs {
+			if !seen[sc] {
+				seen[sc] = true
+				work = append(work, sc)
+			}
+		}
+	}
+	return true
 }
